@@ -915,6 +915,26 @@ impl Net {
 		true
 	}
 
+	/// The event at the head of node i's queue, as the user would be shown it, without taking it (the handler answers
+	/// ReplayEvent, so the library keeps it): one interned value, 0 if the queue is empty or the event is of a kind the
+	/// library does not promise to keep across a restart.  Used around a clean reload (C12: "payments and events").
+	fn peek_event_head(&mut self, i: usize) -> usize {
+		use lightning::events::EventsProvider;
+		let seen: std::cell::RefCell<Option<Event>> = std::cell::RefCell::new(None);
+		self.nodes[i].node.process_pending_events(&|e: Event| { if seen.borrow().is_none() { *seen.borrow_mut() = Some(e); } Err(lightning::events::ReplayEvent()) });
+		let e = match seen.into_inner() { Some(e) => e, None => return 0 };
+		let txt = match &e {
+			Event::PaymentSent { .. } | Event::PaymentFailed { .. } | Event::PaymentClaimable { .. } | Event::PaymentClaimed { .. }
+			| Event::PaymentForwarded { .. } | Event::PaymentPathSuccessful { .. } | Event::HTLCHandlingFailed { .. }
+			| Event::SpendableOutputs { .. } | Event::ChannelReady { .. } | Event::HTLCIntercepted { .. } => format!("EV|{:?}", e),
+			// (test builds add fields to PaymentPathFailed that are not written; ChannelClosed etc. are judged by their own rules)
+			Event::PaymentPathFailed { payment_id, payment_hash, payment_failed_permanently, short_channel_id, path, .. } =>
+				format!("EV|PaymentPathFailed|{:?}|{:?}|{}|{:?}|{:?}", payment_id, payment_hash, payment_failed_permanently, short_channel_id, path),
+			_ => return 0,
+		};
+		if std::env::var("VERIF_DEBUG_STAT").is_ok() && !self.stat_ids.contains_key(&txt) { eprintln!("STAT {} {}", self.stat_ids.len() + 1, txt); }
+		let n = self.stat_ids.len(); *self.stat_ids.entry(txt).or_insert(n + 1)
+	}
 	fn proj(&mut self, i: usize) { self.proj_ext(i, false, false) }
 	fn proj_ext(&mut self, i: usize, fin: bool, after_reload: bool) {
 		let chans = self.nodes[i].node.list_channels();
@@ -932,7 +952,18 @@ impl Net {
 				cd.channel_shutdown_state, cd.confirmations_required);
 			if std::env::var("VERIF_DEBUG_STAT").is_ok() && !self.stat_ids.contains_key(&stat) { eprintln!("STAT {} {}", self.stat_ids.len() + 1, stat); }
 			let stat_id = { let n = self.stat_ids.len(); *self.stat_ids.entry(stat).or_insert(n + 1) };
-			self.ev(json!({"ev":"proj","node":i,"chan":c,"peer":peer,"static":stat_id,
+			// the dynamic part a reload has to preserve as well: every pending HTLC as the user is shown it (id, amount,
+			// expiry, hash, stage, dust or not) and the node's recent payments (one interned value each)
+			let mut hin: Vec<String> = cd.pending_inbound_htlcs.iter().map(|h| format!("{:?}", h)).collect(); hin.sort();
+			let mut hout: Vec<String> = cd.pending_outbound_htlcs.iter().map(|h| format!("{:?}", h)).collect(); hout.sort();
+			let dynv = format!("DYN|{:?}|{:?}", hin, hout);
+			if std::env::var("VERIF_DEBUG_STAT").is_ok() && !self.stat_ids.contains_key(&dynv) { eprintln!("STAT {} {}", self.stat_ids.len() + 1, dynv); }
+			let dyn_id = { let n = self.stat_ids.len(); *self.stat_ids.entry(dynv).or_insert(n + 1) };
+			let mut pays: Vec<String> = self.nodes[i].node.list_recent_payments().iter().map(|p| format!("{:?}", p)).collect(); pays.sort();
+			let payv = format!("PAY|{:?}", pays);
+			if std::env::var("VERIF_DEBUG_STAT").is_ok() && !self.stat_ids.contains_key(&payv) { eprintln!("STAT {} {}", self.stat_ids.len() + 1, payv); }
+			let pay_id = { let n = self.stat_ids.len(); *self.stat_ids.entry(payv).or_insert(n + 1) };
+			self.ev(json!({"ev":"proj","node":i,"chan":c,"peer":peer,"static":stat_id,"dyn":dyn_id,"pays":pay_id,
 				"out_cap":cd.outbound_capacity_msat,"in_cap":cd.inbound_capacity_msat,
 				"limit":cd.next_outbound_htlc_limit_msat,"min":cd.next_outbound_htlc_minimum_msat,
 				"usable":cd.is_usable,"ready":cd.is_channel_ready,
@@ -1033,6 +1064,11 @@ impl Net {
 		// a locally refused HTLC shows up as an immediate PaymentPathFailed / PaymentFailed
 		let refused = !api_ok || self.log.lock().unwrap()[mark..].iter().any(|e| e["ev"] == "event" && e["hash"] == json!(h)
 			&& (e["kind"] == "PaymentFailed" || e["kind"] == "PaymentPathFailed"));
+		// (a payer whose user is refusing events does not get to see those events: ask the channel instead)
+		let refused = if self.hold_events[src] {
+			!api_ok || !self.nodes[src].node.list_channels().iter().find(|c| c.channel_id == cid)
+				.map(|c| c.pending_outbound_htlcs.iter().any(|x| x.payment_hash == hash)).unwrap_or(false)
+		} else { refused };
 		// (`snap`: index of the first manager snapshot of the payer that knows this payment)
 		let snap = self.mgr_snaps[src].len();
 		let rec = json!({"ev":"send","node":src,"dst":dst,"chan":c,"hash":h,"amt":amt,"first_amt":first_amt,"limit":limit,"min":min,"usable":usable,"snap":snap,
@@ -1677,6 +1713,8 @@ impl Net {
 			// what a clean shutdown writes: disconnect, then persist everything
 			self.drain();
 			self.proj(i);
+			let head = self.peek_event_head(i);
+			self.ev(json!({"ev":"evhead","node":i,"id":head,"after_reload":false}));
 			self.mgr_snaps[i].push(self.nodes[i].node.encode());
 			self.settle_dirty(i);
 			self.mgr_clean[i].push(self.dirty[i].is_empty());
@@ -1756,6 +1794,7 @@ impl Net {
 		// persist calls made while loading the monitors are re-persists of known state
 		{ let mut lg = self.log.lock().unwrap(); for e in lg.iter_mut().skip(before) { if e["ev"] == "persist" { e["kind"] = json!("load"); } } }
 		self.ev(json!({"ev":"restarted","node":i}));
+		if reload { let head = self.peek_event_head(i); self.ev(json!({"ev":"evhead","node":i,"id":head,"after_reload":true})); }
 		// the application brings the restarted node up to the chain tip (its manager may be older than that)
 		{
 			let mgr_h = self.nodes[i].node.current_best_block().height;
